@@ -581,6 +581,17 @@ class SqlImpl(TableImpl):
             query.order_by = []
             right_query.order_by = []
 
+            # The union of an integer and a float column is a float column. A
+            # dynamically typed database (SQLite) keeps the integers as they are.
+            for l_uid, r_uid in zip(left_select, right_query.select, strict=True):
+                l_type, r_type = sqa_expr[l_uid].type, right_sqa_expr[r_uid].type
+                if isinstance(l_type, sqa.Integer | sqa.Float) and isinstance(r_type, sqa.Integer | sqa.Float):
+                    if isinstance(l_type, sqa.Float) != isinstance(r_type, sqa.Float):
+                        sqa_expr[l_uid] = sqa.label(sqa_expr[l_uid].name, sqa.cast(sqa_expr[l_uid], sqa.Double()))
+                        right_sqa_expr[r_uid] = sqa.label(
+                            right_sqa_expr[r_uid].name, sqa.cast(right_sqa_expr[r_uid], sqa.Double())
+                        )
+
             # Build left and right select statements
             left_sel = cls.compile_query(table, query, sqa_expr)
             right_sel = cls.compile_query(right_table, right_query, right_sqa_expr)
